@@ -31,6 +31,32 @@ type NetSpec struct {
 	Nodes     []NetNode `json:"nodes"` // ascending ids, sensors first
 	Links     []NetLink `json:"links"`
 	ViaGenome bool      `json:"via_genome"`
+	// OutOrder (constructor-built networks only): the order in which the output neurons are handed to NewNetwork as
+	// its output list, as indexes into the outputs in node order. Empty = node order.
+	OutOrder []int `json:"out_order,omitempty"`
+}
+
+// outputIds: ids of the output neurons in the order of the network's output list (the order of ReadOutputs).
+func (s NetSpec) outputIds() []int {
+	var ids []int
+	for _, n := range s.Nodes {
+		if n.Role == roleOutput {
+			ids = append(ids, n.Id)
+		}
+	}
+	if s.ViaGenome || len(s.OutOrder) != len(ids) {
+		return ids
+	}
+	perm := make([]int, len(ids))
+	seen := map[int]bool{}
+	for i, k := range s.OutOrder {
+		if k < 0 || k >= len(ids) || seen[k] {
+			return ids
+		}
+		seen[k] = true
+		perm[i] = ids[k]
+	}
+	return perm
 }
 
 func (s NetSpec) counts() (nIn, nBias, nHid, nOut int) {
@@ -82,6 +108,10 @@ func (s NetSpec) Build() (*network.Network, error) {
 	for _, l := range s.Links {
 		link := byId[l.To].ConnectFrom(byId[l.From], l.W)
 		link.IsRecurrent = l.Rec
+	}
+	out = out[:0]
+	for _, id := range s.outputIds() {
+		out = append(out, byId[id])
 	}
 	return network.NewNetwork(in, out, all, 1), nil
 }
@@ -145,6 +175,13 @@ func drawNet(t *rapid.T, cfg NetCfg) NetSpec {
 	for _, r := range neuronRoles {
 		s.Nodes = append(s.Nodes, NetNode{Id: id, Role: r, Act: rapid.SampledFrom(actPool).Draw(t, "act")})
 		id++
+	}
+	if !s.ViaGenome && nOut > 1 && rapid.IntRange(0, 2).Draw(t, "permute outputs") == 0 {
+		idx := make([]int, nOut)
+		for i := range idx {
+			idx[i] = i
+		}
+		s.OutOrder = rapid.Permutation(idx).Draw(t, "output order")
 	}
 	neurons := s.Nodes[nSensors:]
 	if cfg.Cyclic {
@@ -325,12 +362,10 @@ func (s NetSpec) evalFeedForward(inputs []float64, withBias bool) (evalResult, e
 		val[v] = out
 		bnd[v] = lip*eSum + 4*eps*math.Abs(out)
 	}
-	for _, n := range s.Nodes {
-		if n.Role == roleOutput {
-			res.out = append(res.out, val[n.Id])
-			res.bound = append(res.bound, bnd[n.Id])
-			res.maxBound = math.Max(res.maxBound, bnd[n.Id])
-		}
+	for _, id := range s.outputIds() {
+		res.out = append(res.out, val[id])
+		res.bound = append(res.bound, bnd[id])
+		res.maxBound = math.Max(res.maxBound, bnd[id])
 	}
 	return res, nil
 }
